@@ -32,13 +32,18 @@ def hexVal (c : Char) : Option Nat :=
 def skipWs (cs : List Char) : List Char := cs.dropWhile isWs
 
 /-- a numeral as Rust's `Display` prints finite numbers: `-?digits(.digits)?` -/
+def numBody : List Char → List Char
+  | '-' :: r => r
+  | r => r
+/-- `.digits` with at least one digit -/
+def isFraction : List Char → Bool
+  | '.' :: fr => !fr.isEmpty && fr.all isDigit
+  | _ => false
 def IsNumeral (cs : List Char) : Bool :=
-  let body := match cs with | '-' :: r => r | r => r
+  let body := numBody cs
   let ip := body.takeWhile isDigit
   let rest := body.dropWhile isDigit
-  !ip.isEmpty && (rest.isEmpty || (match rest with
-    | '.' :: fr => !fr.isEmpty && fr.all isDigit
-    | _ => false))
+  !ip.isEmpty && (rest.isEmpty || isFraction rest)
 
 inductive Val where
   | num (txt : List Char)
